@@ -150,17 +150,16 @@ pub async fn revoke_key(
     auth_storage: &Arc<dyn AuthStorage>,
     user_id: &str,
 ) -> AuthResult<()> {
-    // Use read lock first to get user data
-    let user_key = {
-        let cache_guard = cache.read().await;
-        cache_guard
-            .get(user_id)
-            .ok_or_else(|| {
-                debug!(target: "sneldb::auth", user_id, "User not found during revoke");
-                AuthError::UserNotFound(user_id.to_string())
-            })?
-            .clone()
-    }; // Drop read lock
+    // Hold the write lock across read-modify-write: a concurrent grant / revoke must not be
+    // overwritten with a stale copy of the record
+    let mut cache_guard = cache.write().await;
+    let user_key = cache_guard
+        .get(user_id)
+        .ok_or_else(|| {
+            debug!(target: "sneldb::auth", user_id, "User not found during revoke");
+            AuthError::UserNotFound(user_id.to_string())
+        })?
+        .clone();
 
     // Update user in DB
     let updated_user = User {
@@ -184,16 +183,14 @@ pub async fn revoke_key(
         permissions: user_key.permissions.clone(),
     };
 
-    {
-        let mut cache_guard = cache.write().await;
-        cache_guard.insert(updated_key.clone());
-    } // Drop write lock on user cache
+    cache_guard.insert(updated_key.clone());
 
     // Update permission cache
     {
         let mut perm_cache_guard = permission_cache.write().await;
         perm_cache_guard.update_user(&updated_key);
     } // Drop write lock on permission cache
+    drop(cache_guard);
 
     info!(target: "sneldb::auth", user_id, "User key revoked");
     Ok(())
